@@ -196,10 +196,10 @@ def step {α : Type} [BEq α] (s : St α) : Op α → Option (St α)
   | .insTo _ d x => some { s with pending := s.pending ++ [insertTo d x] }
   | .insVec _ d xs => some { s with pending := s.pending ++ [insertVec d xs] }
   | .barrier sched => (deliverSched s.bag s.pending sched).map (fun b => { bag := b, pending := [] })
-  | .rebalance ords sched => if s.pending = [] then (rebalance s.bag ords sched).map (fun b => { s with bag := b }) else none
-  | .lshuffle r new => if s.pending = [] then (localShuffleAt s.bag r new).map (fun b => { s with bag := b }) else none
-  | .gshuffle dests sched => if s.pending = [] then (globalShuffle s.bag dests sched).map (fun b => { s with bag := b }) else none
-  | .clear => if s.pending = [] then some { s with bag := clear s.bag } else none
+  | .rebalance ords sched => if s.pending.isEmpty then (rebalance s.bag ords sched).map (fun b => { s with bag := b }) else none
+  | .lshuffle r new => if s.pending.isEmpty then (localShuffleAt s.bag r new).map (fun b => { s with bag := b }) else none
+  | .gshuffle dests sched => if s.pending.isEmpty then (globalShuffle s.bag dests sched).map (fun b => { s with bag := b }) else none
+  | .clear => if s.pending.isEmpty then some { s with bag := clear s.bag } else none
 
 /-- items an operation adds to the bag -/
 def Op.inserted {α : Type} : Op α → List α
@@ -235,14 +235,10 @@ def TBag.insert {α : Type} (tb : TBag α) (r : Nat) (x : α) : TBag α × Nat :
   let t := tag r (tb.next.getD r 0)
   ({ next := tb.next.modify r (· + 1), store := insertUnique tb.store t x }, t)
 
-/-- `async_visit(tag, f)` (`async_visit_if_exists` is the same on an existing tag; on a missing tag
-`async_visit` default-constructs an entry, `async_visit_if_exists` does nothing) -/
+/-- `async_visit_if_exists(tag, f)`; `async_visit(tag, f)` is the same on an existing tag (on a missing
+tag it would default-construct an entry: not used through tags handed out by `insert`) -/
 def TBag.visitIfExists {α : Type} (tb : TBag α) (t : Nat) (f : α → α) : TBag α :=
   { tb with store := tb.store.map (fun p => if p.1 == t then (p.1, f p.2) else p) }
-
-def TBag.visit {α : Type} (tb : TBag α) (dflt : α) (t : Nat) (f : α → α) : TBag α :=
-  if tb.store.any (fun p => p.1 == t) then tb.visitIfExists t f
-  else { tb with store := tb.store ++ [(t, f dflt)] }
 
 def TBag.erase {α : Type} (tb : TBag α) (t : Nat) : TBag α :=
   { tb with store := tb.store.filter (fun p => !(p.1 == t)) }
